@@ -145,7 +145,7 @@ def run(ctx) -> None:
     for f, n, t in sites:
         if id(f) not in allowed_homes or self_attr(t) != st_attr:
             rep.violate("C13.R2", f, n, "the context state is assigned outside Context.__init__/__aenter__/__aexit__")
-    rep.floor("C13.R2", len(sites), 5)
+    rep.floor("C13.R2", len(sites), 4)
     init_assign = [n for f, n, t in sites if f is an.ctx_method("__init__")]
     rep.check("C13.R2", len(init_assign) == 1 and enum_member(init_assign[0].value, st_enum) == "inactive", an.ctx_method("__init__"), init_assign[0] if init_assign else None, "a new context is inactive", "a new context does not start inactive")
     ecfg = a.cfg(aenter)
@@ -161,6 +161,8 @@ def run(ctx) -> None:
         rep.check("C13.R2", ecfg.dominates(gn.id, opens[0].id) and not any(a.node_checkpoints(aenter, ecfg, ecfg.nodes[i]) for i in btw), aenter, opens[0].ast, "inactive -> open right after the guard (no checkpoint in between)", "the state does not become open immediately after the entry guard")
         # rollback: inactive only inside a BaseException handler that re-raises and does NOT cover the guard
         rollback = e_assigns.get("inactive", [])
+        if not rollback:
+            rep.violate("C13.R2", aenter, aenter.node, "a failing entry (e.g. cancellation while entering) is not rolled back: the context stays 'open' although it was never entered, and cannot be entered again")
         for rn in rollback:
             hs = [h for h in walk_own(aenter.node) if isinstance(h, ast.ExceptHandler) and any(x is rn.ast for x in ast.walk(h))]
             ok = bool(hs) and any(isinstance(b, ast.Raise) and b.exc is None for b in hs[0].body)
